@@ -419,15 +419,16 @@ fn header_mutations(p: SP, v: &Val, all_types: bool, out: &mut Vec<Vec<u8>>) {
     op_kinds(v, &mut kinds);
     if kinds.len() != w.per_op.len() { return; }
     let e = &w.bytes;
-    let type_bytes: Vec<u8> = if all_types { (0..=255u8).collect() } else { vec![0, 1, 2, 3, 4, 5, 8, 11, 12, 13, 14, 15, 16, 17, 0x1c, 0x19, 0x7f, 0x80, 0xf0, 0xff] };
+    let type_bytes: Vec<u8> = if all_types { (0..=255u8).collect() } else { vec![0, 1, 2, 3, 4, 5, 8, 11, 12, 13, 14, 15, 16, 17, 0x1c, 0x19, 0x7f, 0x80, 0x83, 0xf0, 0xf1, 0xf3, 0xfc, 0xff] };
     let mut off = 0usize;
     for (k, n) in kinds.iter().zip(w.per_op.iter()) {
         let (k, n) = (*k, *n);
         let rem_after = |pos: usize| (e.len() - pos) as i64;
         let ints = |rem: i64| -> Vec<i64> { vec![-1, 0, 1, rem - 1, rem, rem + 1, i32::MAX as i64, u32::MAX as i64, i32::MIN as i64] };
+        let id_ints: Vec<i64> = vec![-1, 0, 1, 15, 16, 32753, 32766, 32767, -32768];
         let put_int = |out: &mut Vec<Vec<u8>>, pos: usize, width: usize| {
             // fixed-width position (binary protocols)
-            for x in ints(rem_after(pos + width)) {
+            for x in if width == 2 { id_ints.clone() } else { ints(rem_after(pos + width)) } {
                 let mut m = e.clone();
                 let b: Vec<u8> = if width == 4 { if p == SP::Le { (x as i32).to_le_bytes().to_vec() } else { (x as i32).to_be_bytes().to_vec() } }
                                  else if p == SP::Le { (x as i16).to_le_bytes().to_vec() } else { (x as i16).to_be_bytes().to_vec() };
@@ -437,7 +438,7 @@ fn header_mutations(p: SP, v: &Val, all_types: bool, out: &mut Vec<Vec<u8>>) {
         };
         let put_var = |out: &mut Vec<Vec<u8>>, pos: usize, len: usize, zigzag: bool| {
             // varint position (compact): splice a new varint in
-            for x in ints(rem_after(pos + len)) {
+            for x in if zigzag { id_ints.clone() } else { ints(rem_after(pos + len)) } {
                 let raw: u64 = if zigzag { (((x as i64) << 1) ^ ((x as i64) >> 63)) as u64 } else { x as u32 as u64 };
                 let mut m = e[..pos].to_vec(); m.extend(varint(raw)); m.extend(&e[pos + len..]); out.push(m);
                 if x == -1 { let mut m = e[..pos].to_vec(); m.extend([0xff; 10]); m.push(1); m.extend(&e[pos + len..]); out.push(m); }   // over-long varint
@@ -496,6 +497,8 @@ fn fixed_values() -> Vec<Val> {
     vs.push(Val::Struct(vec![(1, Val::Struct(vec![(5, Val::I32(1)), (400, Val::Bool(true))])), (2, Val::Bool(true)), (3, Val::List(TT::Bool, vec![Val::Bool(true), Val::Bool(false)])), (4, Val::Uuid([1; 16]))]));
     vs.push(Val::Struct(vec![(-5, Val::List(TT::Struct, vec![Val::Struct(vec![]), Val::Struct(vec![(1, Val::Bool(false))])])), (32767, Val::Map(TT::Struct, TT::List, vec![(Val::Struct(vec![(1, Val::I8(1))]), Val::List(TT::Uuid, vec![Val::Uuid([2; 16])]))]))]));
     vs.push(Val::List(TT::List, vec![Val::List(TT::Map, vec![Val::Map(TT::I8, TT::I8, vec![]), Val::Map(TT::I8, TT::I8, vec![(Val::I8(1), Val::I8(2))])]), Val::List(TT::Map, vec![])]));
+    vs.push(Val::Struct(vec![(32760, Val::I8(1)), (32767, Val::Bool(true))]));
+    vs.push(Val::Struct(vec![(-32768, Val::I16(-1)), (-32767, Val::Bool(false)), (0, Val::I32(0)), (32766, Val::Struct(vec![(32767, Val::I8(0))])), (32767, Val::I8(1))]));
     vs.push(Val::Bin(vec![0x5a; 300]));
     vs
 }
